@@ -57,6 +57,15 @@ Section PopEquiv.
     - apply merge_aligned; [exact Ao|apply topk_aligned].
   Qed.
 
+  (* BaseSEA.run (inherited by SEA, SEAWithCrossover, GAStyleSEA) and SEAWithAdaptiveMutation.run: the elites are taken from the population
+     made of the PARENTS the deme handed in, the rest from what the operator pipeline made of those parents *)
+  Theorem BaseSEA_run_fits mx k_elites pipeline parents o1 o2 : aligned parents -> aligned (pipeline parents) ->
+    pf (gen_BaseSEA_run gdef mx k_elites pipeline parents o1 o2) = sea_select mx k_elites (pf parents) (pf (pipeline parents)) o1 o2.
+  Proof. intros Ap Ao. unfold gen_BaseSEA_run. now apply select_new_population_fits. Qed.
+  Theorem SEAWithAdaptiveMutation_run_fits mx k_elites pipeline parents o1 o2 : aligned parents -> aligned (pipeline parents) ->
+    pf (gen_SEAWithAdaptiveMutation_run gdef mx k_elites pipeline parents o1 o2) = sea_select mx k_elites (pf parents) (pf (pipeline parents)) o1 o2.
+  Proof. intros Ap Ao. unfold gen_SEAWithAdaptiveMutation_run. now apply BaseSEA_run_fits. Qed.
+
   (* DE.run / SHADE.run: the mask and the survivors *)
   Lemma de_mask_eq (mx : bool) : forall ts ps : list Z,
     (if mx then map2 (fun x y => Z.leb y x) ts ps else map2 (fun x y => Z.leb x y) ts ps) = de_mask mx ts ps.
